@@ -96,6 +96,12 @@ def laws(text, r: random.Random, flags):
             # `set @x` creates the one innermost layer, `rm @x` drops it again
             depth, create_layer = 1, True
         name = r.choice(["fresh1", "zz", "added", "foo-bar", "n9"])
+        if create_layer and r.random() < 0.4:
+            # a name the body only inherits, or the root of dotted bindings of the body: no binding of the body has that
+            # path, so `@name` is as fresh as any other
+            special = sorted({e["path"][0] for e in model.core if e["inh"] is not None} | {e["path"][0] for e in model.core if e["inh"] is None and len(e["path"]) > 1})
+            if special:
+                name = r.choice(special)
         path = E.enc((name,), depth)
         m = copy.deepcopy(model)
         try:
